@@ -36,6 +36,7 @@ type faultySink struct {
 	failOff  int // fail when the write would cross this byte offset, -1 = never
 	fired    bool
 	offsets  []int // start offset of every call (fault-free run)
+	closeAt  int   // number of sink calls made before Close started
 }
 
 func (s *faultySink) Write(b []byte) (int, error) {
@@ -122,6 +123,9 @@ func c14Write(sc *c14Scenario, api string, encPick uint64, sink io.Writer, seed 
 			case "flush":
 				err = w.flush()
 			case "close":
+				if fs, ok := sink.(*faultySink); ok {
+					fs.closeAt = fs.calls
+				}
 				err = w.close()
 			}
 			if err != nil {
@@ -250,7 +254,7 @@ func c14Main(args []string) error {
 			}
 			continue
 		}
-		limit := 30
+		limit := 40
 		if density == "all" {
 			limit = 1500
 		}
@@ -260,7 +264,7 @@ func c14Main(args []string) error {
 				return cands
 			}
 			keep := map[int]bool{}
-			for i := 0; i < 4 && i < len(cands); i++ {
+			for i := 0; i < 10 && i < len(cands); i++ {
 				keep[cands[i]] = true
 				keep[cands[len(cands)-1-i]] = true
 			}
@@ -279,7 +283,23 @@ func c14Main(args []string) error {
 		for c := 1; c <= good.calls; c++ {
 			calls = append(calls, c)
 		}
+		probed := map[int]bool{}
 		for _, c := range sample(calls) {
+			probed[c] = true
+			sinkProbe(c, "call")
+		}
+		// the writes made by Close (deferred bloom filters, page index, footer, trailer) each have their own
+		// error plumbing: probe every one of them (up to a cap)
+		closeCalls := []int{}
+		for c := good.closeAt + 1; c <= good.calls; c++ {
+			if !probed[c] {
+				closeCalls = append(closeCalls, c)
+			}
+		}
+		if len(closeCalls) > 2*limit {
+			closeCalls = closeCalls[:2*limit]
+		}
+		for _, c := range closeCalls {
 			sinkProbe(c, "call")
 		}
 		// byte offsets: structure boundaries (start of every sink write) +-1, plus every offset of small files
